@@ -90,7 +90,8 @@ func c30ReadFileState(dir string) (sleep.State, error) {
 
 func TestVerif_C30(t *testing.T) {
 	r := verifkit.Start(t, "C30", "machine")
-	r.Rule("det: one case = one PRNG schedule (12-40 steps) of {Sleep, Wake, timer-fired Poll, advance a parked poll to its next point, Wake from inside OnPoll} " +
+	r.Rule("det: one case = one PRNG schedule (12-40 steps) of {Sleep, Wake, timer-fired Poll, advance a parked poll to its next point, Wake from inside OnPoll, " +
+		"process restart = Stop + fresh Manager on the same data dir resumed via Start() or LoadState()} " +
 		"on a real Manager, each step compared with an exact reference model; free: one case = 2-3 API goroutines + real ms poll timers, judged on recorded event order; " +
 		"non-trivial = the case had >=1 accepted Sleep, >=1 accepted Wake and >=1 poll that reached POLLING; distinct by hash of the step/outcome trace (det) or of the event-kind sequence (free)")
 	r.Assume("C30: POLLING is not required to be written to the state file: while memory says POLLING the file may say SLEEPING (Poll persists only when it returns to SLEEPING, and restart treats both alike); " +
@@ -128,6 +129,9 @@ func TestVerif_C30(t *testing.T) {
 	r.Require("det_stale_started_awake_advanced", 300)
 	r.Require("det_stale_started_resleep_advanced", 100)
 	r.Require("det_state_file_checks", 15000)
+	r.Require("det_restarts", 1000)
+	r.Require("det_restarts_while_sleeping", 300)
+	r.Require("det_wake_first_transition_after_resume", 100)
 	r.Require("free_onpoll", 400)
 	r.Require("free_onpollend", 100)
 	r.Require("free_wake_ok", 500)
@@ -166,6 +170,10 @@ type c30Det struct {
 	dir   string
 
 	onPollSet, onPollEndSet, persist bool
+	cfg                              config.SleepConfig
+	cb                               sleep.Callbacks
+	restarts                         int
+	freshResume                      bool // no accepted transition and no poll yet on the manager that resumed from disk
 
 	mu       sync.Mutex
 	events   []c30Ev
@@ -321,6 +329,7 @@ func (c *c30Det) doSleep() {
 		c.state = sleep.StateSleeping
 		c.transitions++
 		c.nSleepOK++
+		c.freshResume = false
 		c.r.Add("det_sleep_accepted", 1)
 		for _, p := range c.polls {
 			if p.stale && !p.done {
@@ -359,6 +368,10 @@ func (c *c30Det) judgeWake(how string, err error, evs []c30Ev) {
 		c.transitions++
 		c.nWakeOK++
 		c.r.Add("det_wake_accepted", 1)
+		if c.freshResume {
+			c.r.Add("det_wake_first_transition_after_resume", 1)
+		}
+		c.freshResume = false
 		if from == sleep.StatePolling {
 			c.r.Add("det_wake_accepted_while_polling", 1)
 		}
@@ -379,6 +392,54 @@ func (c *c30Det) judgeWake(how string, err error, evs []c30Ev) {
 		c.r.Add("det_wake_refused", 1)
 	}
 	c.afterStep("Wake", nil)
+}
+
+// doRestart models a process restart while no poll is in flight: Stop the manager (Stop persists the final
+// state), build a fresh Manager on the same data directory and resume either through Manager.Start() or the way
+// agent.Start does it (LoadState, then Sleep() when the loaded state is SLEEPING - which must be refused). The
+// history then continues on the new manager. Stop and the resume are both judged: file == memory == model.
+func (c *c30Det) doRestart(viaStart bool) {
+	old := c.m
+	old.Stop()
+	c.trace = append(c.trace, "Stop")
+	c.transitions++ // Stop writes the state file even if nothing happened before
+	c.afterStep("Stop", nil)
+	c30Reg.Delete(old)
+	if c.failed {
+		return
+	}
+	m := sleep.NewManager(c.cfg, c.dir, nil)
+	m.SetCallbacks(c.cb)
+	c.m = m
+	c30Reg.Store(m, c)
+	var err error
+	how := "LoadState"
+	if viaStart {
+		how = "Start"
+		err = m.Start()
+	} else {
+		err = m.LoadState()
+	}
+	c.restarts++
+	c.freshResume = true
+	c.trace = append(c.trace, "restart:"+how+"->"+fmt.Sprint(err))
+	c.r.Add("det_restarts", 1)
+	if c.state == sleep.StateSleeping {
+		c.r.Add("det_restarts_while_sleeping", 1)
+	}
+	if err != nil {
+		c.bad("restart:load-failed", fmt.Sprintf("a fresh Manager on the data directory of a stopped one failed to resume (%s): %v", how, err))
+		return
+	}
+	if got := m.GetState(); got != c.state {
+		c.bad("restart:resumed-"+got.String()+"-expected-"+c.state.String(),
+			fmt.Sprintf("the restarted manager resumed in state %v, the last completed transition before the restart left %v", got, c.state))
+		return
+	}
+	c.afterStep("restart", nil)
+	if !viaStart && c.state == sleep.StateSleeping && !c.failed {
+		c.doSleep() // agent.Start: "previously sleeping" -> Sleep(), refused because the loaded state is already SLEEPING
+	}
 }
 
 func (c *c30Det) doWake() {
@@ -407,6 +468,7 @@ func (c *c30Det) doPollStep(p *c30Poll) {
 			p.live, p.stage = true, 1
 			c.state = sleep.StatePolling
 			c.nLive++
+			c.freshResume = false
 			c.r.Add("det_poll_started", 1)
 		} else {
 			c.r.Add("det_poll_skipped", 1)
@@ -518,6 +580,7 @@ func c30DetCase(r *verifkit.R, phase string, ci int, rng *verifkit.Rand, base st
 	c.persist = !rng.Chance(1, 8)
 	cfg := config.SleepConfig{Enabled: true, PollInterval: time.Hour, PollIntervalJitter: 0.3,
 		PollDuration: time.Duration(20+rng.Intn(200)) * time.Microsecond, PersistState: c.persist, MaxQueuedMessages: 10}
+	c.cfg = cfg
 	c.m = sleep.NewManager(cfg, dir, nil)
 	cb := sleep.Callbacks{
 		OnSleep: func() error { c.ev("OnSleep"); return nil },
@@ -529,9 +592,10 @@ func c30DetCase(r *verifkit.R, phase string, ci int, rng *verifkit.Rand, base st
 	if c.onPollEndSet {
 		cb.OnPollEnd = func() error { c.ev("OnPollEnd"); return nil }
 	}
+	c.cb = cb
 	c.m.SetCallbacks(cb)
 	c30Reg.Store(c.m, c)
-	defer c30Reg.Delete(c.m)
+	defer func() { c30Reg.Delete(c.m) }()
 
 	nsteps := rng.Range(12, 40)
 	for s := 0; s < nsteps && !c.failed && !c.hung; s++ {
@@ -587,6 +651,14 @@ func c30DetCase(r *verifkit.R, phase string, ci int, rng *verifkit.Rand, base st
 				c.doPollStep(p)
 			}})
 		}
+		if len(parked) == 0 && c.persist && c.restarts < 3 {
+			w := 2
+			if c.state == sleep.StateSleeping {
+				w = 4
+			}
+			viaStart := rng.Bool()
+			ch = append(ch, choice{w, func() { c.doRestart(viaStart) }})
+		}
 		if len(parked) > 0 {
 			p := parked[rng.Intn(len(parked))]
 			ch = append(ch, choice{7, func() { c.doPollStep(p) }})
@@ -634,6 +706,17 @@ func c30DetCase(r *verifkit.R, phase string, ci int, rng *verifkit.Rand, base st
 		_ = c.m.Wake()
 	}
 	c.m.Stop()
+	// Stop is the last completed transition of the process: what it leaves on disk is what the next process resumes
+	if c.persist && !c.failed && !c.hung && !c30Abort.Load() {
+		mem := c.m.GetState()
+		fs, err := c30ReadFileState(c.dir)
+		c.r.Add("det_final_stop_file_checks", 1)
+		if err != nil {
+			c.bad("persist:after-stop:unreadable", "after Stop the state file cannot be read: "+err.Error())
+		} else if fs != mem {
+			c.bad("persist:after-stop:file-"+fs.String()+"-memory-"+mem.String(), fmt.Sprintf("after the final Wake and Stop the state file says %v while the manager is %v: the next process would resume %v", fs, mem, fs))
+		}
+	}
 
 	nt := c.nSleepOK > 0 && c.nWakeOK > 0 && c.nLive > 0
 	r.Eval(fmt.Sprintf("%v/%v/%v/%s", c.onPollSet, c.onPollEndSet, c.persist, strings.Join(c.trace, ";")), nt)
